@@ -14,7 +14,10 @@
 //! and the result is compared with the Lean model (`entry …` / `repl …` lines: attributes as
 //! numbers, valuesets as struct name + interned element strings, cids interned) and judged by
 //! an oracle written from the property text: every attribute value that was stored / sent reads
-//! back `equal`, with the same strings and the same stored JSON; change cids are unchanged.
+//! back `equal`, with the same strings and the same stored JSON, and answers every method of the
+//! `ValueSetT` trait like the original does (`c12_data/battery.rs`: arguments derived from the
+//! original; this is where a field the encoder does not write — a cache, a pre-filter — shows);
+//! change cids are unchanged.
 use hlib::*;
 use kanidm_lib_crypto::Password;
 use kanidmd_lib::credential::totp::{Totp, TotpAlgo, TotpDigits};
@@ -29,6 +32,9 @@ use kanidmd_lib::verif_hooks::c12 as hk;
 use serde_json::{json, Value as J};
 use std::collections::BTreeMap;
 use time::OffsetDateTime;
+
+#[path = "../c12_data/battery.rs"]
+mod battery;
 
 static QUIET: std::sync::atomic::AtomicBool = std::sync::atomic::AtomicBool::new(false);
 
@@ -148,6 +154,10 @@ struct Ctx {
     drv: Driver,
     rep: Report,
     lines: Lines,
+    /// the previous value set seen of each struct: the "second set" of the behaviour battery
+    last: BTreeMap<String, ValueSet>,
+    /// (path, value) pairs already probed: the builtin entries share most of their values
+    probed: std::collections::BTreeSet<String>,
 }
 
 impl Ctx {
@@ -189,6 +199,43 @@ fn same_value(a: &ValueSet, b: &ValueSet) -> Result<(), String> {
         return Err("stored form differs".into());
     }
     Ok(())
+}
+
+/// Oracle "identical behaviour": every `ValueSetT` method answers alike on `a` (original) and `b`
+/// (read back from storage / from a replication message).
+fn judge_behaviour(ctx: &mut Ctx, path: &str, a: &ValueSet, b: &ValueSet, input: &J, attr: &Attribute) {
+    let name = struct_name(a);
+    let key = format!("{path} {}", battery::vs_canon(a));
+    if !ctx.probed.insert(key) {
+        ctx.rep.count("battery:value-already-probed");
+        return;
+    }
+    let other = ctx.last.get(&name).cloned().unwrap_or_else(|| a.clone());
+    let args = battery::ProbeArgs::derive(a, &other);
+    let want = battery::battery(a, &args, None);
+    let got = battery::battery(b, &args, None);
+    ctx.rep.count(&format!("battery:{path}:{name}"));
+    ctx.rep.count_n("battery:answers-compared", got.len() as u64);
+    let (mut w2, mut g2) = (want, got);
+    let mut masked = 0;
+    while let Some((k, method, arg, x, y)) = battery::first_difference(&w2, &g2) {
+        // an answer that an in-memory construction of the same value gives too (hash iteration order)
+        if masked < 8 && battery::original_also_answers(a, &args, k, &y, 64) {
+            ctx.rep.count(&format!("battery:construction-dependent:{name}:{method}"));
+            w2[k].2.clear();
+            g2[k].2.clear();
+            masked += 1;
+            continue;
+        }
+        ctx.oracle_fail(
+            &format!("behaviour-differs:{name}:{method}"),
+            json!({"path": path, "entry": input, "attr": attr.to_string(), "probe": {"method": method, "argument": clip(&arg)}}),
+            clip(&format!("{method}({arg}) = {x}")),
+            clip(&format!("{method}({arg}) = {y}")),
+        );
+        break;
+    }
+    ctx.last.insert(name, a.clone());
 }
 
 fn clip(s: &str) -> String {
@@ -246,6 +293,8 @@ fn check_entry(ctx: &mut Ctx, e: &EntrySealedCommitted, schema: &kanidmd_lib::sc
                     Some(vb) => {
                         if let Err(why) = same_value(vs, vb) {
                             ctx.oracle_fail(&format!("entry-attr-differs:{}", struct_name(vs)), json!({"entry": input, "attr": a.to_string()}), clip(&format!("{vs:?}")), format!("{why}: {}", clip(&format!("{vb:?}"))));
+                        } else {
+                            judge_behaviour(ctx, "storage", vs, vb, &input, a);
                         }
                     }
                     None => {
@@ -370,6 +419,8 @@ fn judge_repl(ctx: &mut Ctx, mode: &str, v: &View, supplied: &[Attribute], live:
             (Some(vs), Some(vb)) => {
                 if let Err(why) = same_value(vs, vb) {
                     ctx.oracle_fail(&format!("repl-{mode}-attr-differs:{}", struct_name(vs)), json!({"entry": input, "attr": a.to_string()}), clip(&format!("{vs:?}")), format!("{why}: {}", clip(&format!("{vb:?}"))));
+                } else {
+                    judge_behaviour(ctx, &format!("repl-{mode}"), vs, vb, input, a);
                 }
             }
             (None, None) => {}
@@ -390,6 +441,27 @@ async fn populate(qs: &QueryServer, seed: u64, n: u64) {
     // the test server stamps its bootstrap entries with the wall clock: stay after it (all cids are
     // interned before they reach the model, so absolute times never show up in a comparison)
     let t0 = Duration::from_secs(duration_from_epoch_now().as_secs() + 86400);
+    // two OAuth2 clients: the persons' OAuth2 sessions refer to them (`rs_uuid`)
+    {
+        let mut w = qs.write(t0).await.expect("write txn");
+        for k in 0..2u64 {
+            let mut c: Entry<EntryInit, EntryNew> = Entry::new();
+            c.add_ava(Attribute::Class, EntryClass::Object.to_value());
+            c.add_ava(Attribute::Class, EntryClass::Account.to_value());
+            c.add_ava(Attribute::Class, EntryClass::OAuth2ResourceServer.to_value());
+            c.add_ava(Attribute::Class, EntryClass::OAuth2ResourceServerPublic.to_value());
+            c.add_ava(Attribute::Uuid, Value::Uuid(u(3000 + k)));
+            c.add_ava(Attribute::Name, Value::new_iname(&format!("c12client{k}")));
+            c.add_ava(Attribute::DisplayName, Value::new_utf8s("client"));
+            c.add_ava(Attribute::OAuth2RsOriginLanding, Value::new_url_s(&format!("https://c{k}.example.com")).expect("url"));
+            c.add_ava(Attribute::OAuth2RsOrigin, Value::new_url_s(&format!("https://c{k}.example.com/oauth2/result")).expect("url"));
+            c.add_ava(Attribute::OAuth2RsScopeMap, Value::OauthScopeMap(UUID_IDM_ALL_ACCOUNTS, ["openid".to_string(), "groups".to_string()].into_iter().collect()));
+            if let Err(err) = w.internal_create(vec![c]) {
+                panic!("create oauth2 client {k}: {err:?}");
+            }
+        }
+        w.commit().expect("commit");
+    }
     for i in 0..n {
         let mut r = Rng::for_case(seed, 0x5e7_0000 + i);
         let ct = t0 + Duration::new(i * 7, (r.below(1_000_000_000)) as u32);
@@ -433,6 +505,16 @@ async fn populate(qs: &QueryServer, seed: u64, n: u64) {
             ext_metadata: SessionExtMetadata::None,
         };
         e.add_ava(Attribute::UserAuthTokenSession, Value::Session(u(7000 + i), sess));
+        // OAuth2 sessions under that session, for one or both clients
+        for k in 0..r.range(1, 2) {
+            let os = kanidmd_lib::value::Oauth2Session {
+                parent: Some(u(7000 + i)),
+                state: if r.chance(3, 4) { SessionState::NeverExpires } else { SessionState::ExpiresAt(OffsetDateTime::UNIX_EPOCH + ct + Duration::new(7200, 9)) },
+                issued_at: OffsetDateTime::UNIX_EPOCH + ct,
+                rs_uuid: u(3000 + k),
+            };
+            e.add_ava(Attribute::OAuth2Session, Value::Oauth2Session(u(9000 + 2 * i + k), os));
+        }
         if let Err(err) = w.internal_create(vec![e]) {
             panic!("create person {i}: {err:?}");
         }
@@ -517,6 +599,8 @@ fn main() {
              non-trivial = every case (an entry has ≥ 3 attributes or is a tombstone); distinct = (entry uuid, path, ranges)",
         ),
         lines: Lines { attr_ix: BTreeMap::new(), intern: Intern::default() },
+        last: BTreeMap::new(),
+        probed: Default::default(),
     };
     rt.block_on(async {
         let qs = setup_test(TestConfiguration::default()).await;
